@@ -4,6 +4,7 @@ For every STROBE permutation `F`, measurement, epoch, threshold `t ≥ 1`, clien
 (arbitrary bytes: locally derived or from the randomness server), per-client associated data and
 OS-random share points `x` (universally quantified), and every selection of reports.
 -/
+import StarModel.Lemmas.Skeleton
 import StarModel.Lemmas.Star
 import StarModel.Props.C08
 
